@@ -44,7 +44,12 @@ ObsNoDupOutput(o) == \A i \in DOMAIN o.spends : \A a, b \in DOMAIN o.spends[i].c
 ObsTotals(o) == /\ o.rem = SumSeqBy(o.spends, SpendAmt)
                 /\ o.add = SumSeqBy(o.spends, CcSum)
 ObsCoinIds(o) == \A i \in DOMAIN o.spends :
-                   LET s == o.spends[i] IN s.id = SHA256(s.parent \o s.ph \o Enc(s.amt)) /\ Len(s.parent) = 32 /\ Len(s.ph) = 32
+                   LET s == o.spends[i] IN
+                   /\ s.id = SHA256(s.parent \o s.ph \o Enc(s.amt)) /\ Len(s.parent) = 32 /\ Len(s.ph) = 32
+                   \* the public Coin type reports the same id for the spent coin and the defined id for every created coin
+                   /\ "id_api" \in DOMAIN s => /\ s.id_api = s.id
+                                               /\ Len(s.cc_ids) = Len(s.cc)
+                                               /\ \A k \in DOMAIN s.cc : s.cc_ids[k] = SHA256(s.id \o s.cc[k].ph \o Enc(s.cc[k].amt))
 ObsAccepted(o) == ObsConservation(o) /\ ObsNoDoubleSpend(o) /\ ObsNoDupOutput(o) /\ ObsTotals(o) /\ ObsCoinIds(o)
 
 (* ---- C04: accumulator consistency on the reported numbers ---- *)
